@@ -114,7 +114,7 @@ func TestVerifC27(t *testing.T) {
 		}
 
 		cases.Write(verifh.Case{In: "tok " + verifh.Hex(tokenString) + " " + pv + " " + tb.String(), Impl: c27Impl(tok, err), Desc: kind})
-		stats.Inc("unwrap." + kind)
+		stats.Inc("unwrap." + verifc27.StatKind(kind))
 
 		input := "token=" + tokenString + " key=" + verifh.Hex(key) + " (" + kind + ")"
 		short := herr == nil && len(raw) < verifc27.NonceLen+verifc27.TagLen
@@ -259,6 +259,32 @@ func TestVerifC27(t *testing.T) {
 		}
 
 		stats.Inc("families")
+	}
+
+	// ---- key sweep: a server key of the generated kind (keyLength characters of keyAlphabet)
+	// and keys that differ from it in one controlled way (one bit of the last character, one
+	// bit at byte 64 — at every boundary position in the thorough tier —, an appended suffix, letter
+	// case): a token issued under the first must be refused under every other.  Two Argon2id
+	// derivations per line.
+	{
+		kr := verifh.Rand(2703)
+		longKey := verifc27.KeyOfLen(kr, keyLength, 0)
+
+		os.Setenv("EGO_SERVER_TOKEN_KEY", longKey)
+
+		tokenString, err := New("dave", "long key", "15m", c27UUID, 0)
+		if err != nil {
+			t.Fatalf("New: %v", err)
+		}
+
+		check("key.genuine", tokenString, longKey, &[2]string{"dave", "long key"}, true, true)
+
+		for _, v := range verifc27.KeyVariants(kr, longKey, verifh.N(1, 2)) {
+			if strings.HasPrefix(v.Kind, "bit@") || strings.HasPrefix(v.Kind, "suffix") || strings.HasPrefix(v.Kind, "case-all") {
+				check("key."+v.Kind, tokenString, v.Key, nil, false, false)
+				stats.Inc("keysweep")
+			}
+		}
 	}
 
 	// ---- junk
